@@ -72,6 +72,20 @@ pub fn first_difference(a: &Transcript, b: &Transcript) -> Option<(usize, &'stat
                     return Some((i, "callback", format!("on_parse calls differ: {} vs {}", c1, c2)));
                 }
             }
+            (
+                StepOut::Reparsed { emitted: b1, ok: o1, on_parse_calls: c1, .. },
+                StepOut::Reparsed { emitted: b2, ok: o2, on_parse_calls: c2, .. },
+            ) => {
+                if b1 != b2 {
+                    return Some((i, "bytes", bytes_diff(b1, b2)));
+                }
+                if o1 != o2 {
+                    return Some((i, "decision", format!("accept/reject differs: {} vs {}", o1, o2)));
+                }
+                if c1 != c2 {
+                    return Some((i, "callback", format!("on_parse calls differ: {} vs {}", c1, c2)));
+                }
+            }
             (StepOut::Panic { .. }, StepOut::Panic { .. }) => {}
             (StepOut::Panic { msg }, _) => return Some((i, "panic", format!("only the first panicked: {}", scrub(msg)))),
             (_, StepOut::Panic { msg }) => return Some((i, "panic", format!("only the second panicked: {}", scrub(msg)))),
@@ -106,6 +120,7 @@ pub fn bytes_diff(a: &[u8], b: &[u8]) -> String {
 pub fn brief(s: &StepOut) -> String {
     match s {
         StepOut::Parsed { ok, .. } => format!("parsed(ok={})", ok),
+        StepOut::Reparsed { emitted, ok, .. } => format!("reparsed({} bytes, ok={})", emitted.len(), ok),
         StepOut::Emit { bytes } => format!("emit({} bytes)", bytes.len()),
         StepOut::EmitFile { ok, err, .. } => format!("emit_file(ok={},{})", ok, err),
         StepOut::Gc => "gc".into(),
